@@ -333,9 +333,10 @@ func (w *World) hookYield(site string, args ...any) {
 					delay = h.Delay
 				}
 			}
-			// "auto.store": the j-th store-lock acquisition of the ingestion worker that
-			// processes a given update
-			if tag := w.workerOf[g]; tag != nil && strings.HasPrefix(name, "store.") {
+			// "auto.store": the j-th synchronisation point (store-lock acquisition, or
+			// operation on the dispatcher's lock-free group map) of the ingestion worker
+			// that processes a given update
+			if tag := w.workerOf[g]; tag != nil && (strings.HasPrefix(name, "store.") || strings.HasPrefix(name, "dispatch.")) {
 				for _, h := range w.Plan.Holds {
 					if free && h.Site == "auto.store" && strings.Contains(tag.key, h.Match) && h.Nth == tag.n {
 						delay = h.Delay
